@@ -83,3 +83,37 @@ Definition dec_frame_udp (f : bytes) : option (d_eth * d_ip * d_udp) :=
     else None
   | None => None
   end.
+
+(* ---- ARP and ICMP ---- *)
+Record d_arp := {
+  da_htype : N; da_ptype : N; da_hlen : N; da_plen : N; da_op : N;
+  da_sha : bytes; da_spa : bytes; da_tha : bytes; da_tpa : bytes
+}.
+Definition dec_arp (p : bytes) : option d_arp :=
+  if (length p <? 28)%nat then None
+  else Some {| da_htype := u16_at 0 p; da_ptype := u16_at 2 p; da_hlen := u8_at 4 p; da_plen := u8_at 5 p;
+               da_op := u16_at 6 p; da_sha := firstn 6 (skipn 8 p); da_spa := firstn 4 (skipn 14 p);
+               da_tha := firstn 6 (skipn 18 p); da_tpa := firstn 4 (skipn 24 p) |}.
+
+Record d_icmp := { dc_type : N; dc_code : N; dc_cksum : N; dc_rest : bytes }.
+Definition dec_icmp (p : bytes) : option d_icmp :=
+  if (length p <? 4)%nat then None
+  else Some {| dc_type := u8_at 0 p; dc_code := u8_at 1 p; dc_cksum := u16_at 2 p; dc_rest := skipn 4 p |}.
+
+Definition dec_frame_icmp (f : bytes) : option (d_eth * d_ip * d_icmp) :=
+  match dec_frame_ip f with
+  | Some (e, i) =>
+    if (di_v4 i && (di_proto i =? 1)) || (negb (di_v4 i) && (di_proto i =? 58)) then
+      match dec_icmp (di_payload i) with Some c => Some (e, i, c) | None => None end
+    else None
+  | None => None
+  end.
+
+Definition dec_frame_arp (f : bytes) : option (d_eth * d_arp) :=
+  match dec_eth f with
+  | Some e =>
+    if de_type e =? 2054 then
+      match dec_arp (de_payload e) with Some a => Some (e, a) | None => None end
+    else None
+  | None => None
+  end.
